@@ -89,14 +89,14 @@ template <class Q, class T> inline void put(T* p, const Q& q) {
 
 
 class Wrapper:
-    __slots__ = ('name', 'in_ty', 'n_in', 'out_ty', 'n_out', 'n_iout', 'body', 'meta', 'ir_name')
+    __slots__ = ('name', 'in_ty', 'n_in', 'out_ty', 'n_out', 'n_iout', 'body', 'meta', 'ir_name', 'n_iin')
 
-    def __init__(self, name, in_ty, n_in, out_ty, n_out, body, n_iout=0, meta=None):
+    def __init__(self, name, in_ty, n_in, out_ty, n_out, body, n_iout=0, meta=None, n_iin=0):
         self.name, self.in_ty, self.n_in, self.out_ty, self.n_out = name, in_ty, n_in, out_ty, n_out
-        self.body, self.n_iout, self.meta = body, n_iout, meta or {}
+        self.body, self.n_iout, self.meta, self.n_iin = body, n_iout, meta or {}, n_iin
 
     def source(self):
-        return 'extern "C" PHQV_FLATTEN void %s(const %s* in, %s* out, long* iout) {\n%s\n}\n' % (
+        return 'extern "C" PHQV_FLATTEN void %s(const %s* in, %s* out, long* iout, const long* iin) {\n%s\n}\n' % (
             self.name, CTYPE[self.in_ty], CTYPE[self.out_ty], self.body)
 
 
@@ -200,7 +200,7 @@ class Unit:
         self.lib = ctypes.CDLL(self.so)
         return self.lib
 
-    def call_native(self, w, inputs):
+    def call_native(self, w, inputs, iinputs=()):
         """inputs: sequence of numpy scalars / python floats of w.in_ty. returns (out array, iout list)"""
         fn = getattr(self.lib, w.name)
         fn.restype = None
@@ -209,7 +209,10 @@ class Unit:
             a[i] = v
         o = np.zeros(max(1, w.n_out), dtype=NPT[w.out_ty])
         io = (ctypes.c_long * max(1, w.n_iout))()
-        fn(ctypes.c_void_p(a.ctypes.data), ctypes.c_void_p(o.ctypes.data), io)
+        ii = (ctypes.c_long * max(1, w.n_iin))()
+        for i, v in enumerate(iinputs):
+            ii[i] = int(v) - (1 << 64) if int(v) >= (1 << 63) else int(v)
+        fn(ctypes.c_void_p(a.ctypes.data), ctypes.c_void_p(o.ctypes.data), io, ii)
         return o[:w.n_out], [io[i] for i in range(w.n_iout)]
 
 
@@ -258,12 +261,15 @@ def execute_wrapper(mod, w, summaries=None, inputs=None, prefix='x'):
     rin = st.new_region(max(1, w.n_in) * isz, 'arg', 'in')
     rout = st.new_region(max(1, w.n_out) * osz, 'arg', 'out')
     riout = st.new_region(max(1, w.n_iout) * 8, 'arg', 'iout')
+    riin = st.new_region(max(1, w.n_iin) * 8, 'arg', 'iin')
     ins = inputs if inputs is not None else input_terms(w, prefix)
     for i, t in enumerate(ins):
         st.regions[rin].cells[i * isz] = (isz, w.in_ty, t)
+    for i in range(w.n_iin):
+        st.regions[riin].cells[i * 8] = (8, 'i64', tm.arg('i64', 'k%d' % i))
     res = WrapperResult()
     try:
-        done = ex.run(w.name, [Ptr(rin, 0), Ptr(rout, 0), Ptr(riout, 0)], st)
+        done = ex.run(w.name, [Ptr(rin, 0), Ptr(rout, 0), Ptr(riout, 0), Ptr(riin, 0)], st)
     except Unsupported as e:
         res.error = 'unsupported: %s' % e
         res.functions = ex.functions_entered
